@@ -48,7 +48,9 @@ def n_iter(ex, callee, a, env):
 @native(r'as IntoIterator>::into_iter$', 'IntoIterator::into_iter')
 def n_into_iter(ex, callee, a, env):
     v = deref(a[0])
-    return v if isinstance(v, Iter) else Iter(as_slice(v))
+    if isinstance(v, Iter) or type(v).__name__ == 'CharsIter':
+        return v
+    return Iter(as_slice(v))
 
 
 @native(r'as Iterator>::enumerate$', 'Iterator::enumerate')
@@ -61,6 +63,8 @@ def n_enumerate(ex, callee, a, env):
 @native(r'as Iterator>::next$', 'Iterator::next')
 def n_next(ex, callee, a, env):
     it = deref(a[0])
+    if type(it).__name__ == 'CharsIter':
+        return n_chars_next(ex, callee, a, env)
     if it.pos >= it.sl.len:
         return NONE()
     r = Ref(it.sl.buf, it.sl.start + it.pos)
